@@ -318,7 +318,24 @@ func init() {
 			}
 			return c
 		},
-		impl: modImpl2(func(m *numct.Modulus, o, x, y *numct.Nat) ct.Bool { m.ModExp(o, x, y); return ct.True }),
+		impl: modImpl2(func(m *numct.Modulus, o, x, y *numct.Nat) ct.Bool {
+			if o != x && o != y && x != y {
+				// the multi-base variant must agree (two bases: x and 1)
+				outs := []*numct.Nat{new(numct.Nat), new(numct.Nat)}
+				m.ModMultiBaseExp(outs, []*numct.Nat{x, numct.NatOne()}, y)
+				m.ModExp(o, x, y)
+				var oneExp numct.Nat
+				m.ModExp(&oneExp, numct.NatOne(), y)
+				if outs[0].Big().Cmp(o.Big()) != 0 || outs[1].Big().Cmp(oneExp.Big()) != 0 {
+					o.SetUint64(0)
+					o.Resize(0)
+					return ct.False // reported as "refuse": never expected for ModExp
+				}
+				return ct.True
+			}
+			m.ModExp(o, x, y)
+			return ct.True
+		}),
 		orac: func(c *tcase) string {
 			return okz(new(big.Int).Exp(tr(ai(c, 2), c.args[1]), tr(ai(c, 4), c.args[3]), c.args[0]))
 		}})
